@@ -19,8 +19,9 @@ PROP = {
                   "each row in insertion order) and stacked / shuffled merges of column indexes are proved (OptionalIndexProofs.v, MultiValued.v, MergeIndex.v, IndexTie.v). "
                   "Legacy columnar format v1 (multivalued index = one start offset per document; the harness re-encodes every generated table / segment as a v1 file): "
                   "MultiValueIndexV1::select_batch_in_place is proved to map ascending value positions to their documents (pinned `end > pos`), a v1 input of a stacked merge is proved to "
-                  "contribute exactly what the same column contributes in the current format, hence the stacked merge with inputs of either format at any position is proved correct under the "
-                  "pinned flags (row offset added; value-less documents skipped -- the latter is F82, a genuine defect of the unchanged code: proved for inputs outside its class, refuted inside). "
+                  "contribute exactly what the same column contributes in the current format, hence the stacked merge with inputs of either format at any position is proved correct for ALL inputs under the "
+                  "pinned flags (row offset added: STACK_V1_DOCS_SHIFTED; value-less documents of v1 inputs skipped: STACK_NUM_VALUES_SKIPS_EMPTY, the fix of F82); proofs re-run on the "
+                  "regenerated flags; the pre-fix shapes are kept as refuted witnesses over explicit `false` parameters (F82: duplicate start offsets; unshifted doc ids; `end >= pos`). "
                   "Tied only (cases / list specification evaluated on the implementation's answers, no theorem): byte framing of blocks, metadata, headers and footers (VInt), the merge iterators "
                   "(the merge theorems are about the model; merge_columnar itself is compared with the list specification at the result level only), dictionary-ordinal remapping (result level), "
                   "compact space for u128 / IP columns (result level only), get_batch_u32s / BitPacker1x batch decoding.",
